@@ -158,7 +158,8 @@ PpsFieldVals == [id : {0, 1, 7, 255}] \cup [cabac : BOOLEAN] \cup [bottomfield :
                 \cup [cqp2 : {0, -12, 12}]
 \* pps id / sps id assignments with pps id # sps id (Y2)
 IdPairs == {<<0, 0>>, <<1, 0>>, <<0, 1>>, <<2, 1>>, <<7, 31>>, <<255, 3>>}
-PpsVectors == {Override(PpsBase, o) : o \in PpsFieldVals}
+\* second base: no 8x8 transform - the six 4x4 scaling lists are still coded when the matrix flag is set
+PpsVectors == {Override(b, o) : b \in {PpsBase, [PpsBase EXCEPT !.t8x8 = FALSE, !.pscaling = "flat"]}, o \in PpsFieldVals}
               \cup (IF Pairwise THEN {Override(Override(PpsBase, o1), o2) : o1 \in PpsFieldVals, o2 \in PpsFieldVals} ELSE {})
 
 (* ----------------------------------------------------------------- slice *)
